@@ -276,7 +276,11 @@ func (w *CWorld) Exec(a CAction) (res CExecResult, err error) {
 			}
 		}
 	case "push":
-		if _, err := rc.Push("origin"); err != nil && !isPushRejection(err) {
+		out, err := rc.Push("origin")
+		if os.Getenv("VERIF_DEBUG_SYNC") != "" {
+			fmt.Fprintf(os.Stderr, "push r%d: %q err=%v\n", a.R, out, err)
+		}
+		if err != nil && !isPushRejection(err) {
 			return res, &ExecError{"push/" + Normalize(err.Error()), err.Error()}
 		}
 	case "pull":
